@@ -117,6 +117,14 @@ func (r *request) buildHTTP(mediaType, basePath string, producers map[string]run
 	var pr *io.PipeReader
 	var pw *io.PipeWriter
 
+	// when the request cannot be built, release the goroutine feeding the multipart body (and the files it holds)
+	var built bool
+	defer func() {
+		if !built && pr != nil {
+			_ = pr.CloseWithError(io.ErrClosedPipe)
+		}
+	}()
+
 	r.buf = bytes.NewBuffer(nil)
 	if r.payload != nil || len(r.formFields) > 0 || len(r.fileFields) > 0 {
 		body = r.buf
@@ -345,6 +353,7 @@ DoneChoosingBodySource:
 
 	req.URL.RawQuery = r.query.Encode()
 	req.Header = r.header
+	built = true
 
 	return req, nil
 }
